@@ -272,7 +272,11 @@ def rule_F6(ctx, rid='F6'):
     prog = ctx.program
     w = writers_of(prog, 'Sampler', 'n_like')
     allowed = {'Sampler.__init__', 'Sampler.evaluate_likelihood'}
-    ctx.require('Sampler.evaluate_likelihood' in w, 'evaluate_likelihood no longer counts calls')
+    if 'Sampler.evaluate_likelihood' not in w:
+        ctx.ob(rid, 'n_like:writer(Sampler.evaluate_likelihood)', False,
+               prog.func('Sampler.evaluate_likelihood').where(),
+               'evaluate_likelihood, the only caller of the likelihood, does not write n_like: '
+               'likelihood calls are made without being counted')
     for q in sorted(w):
         ctx.ob(rid, 'n_like:writer(%s)' % q, q in allowed, prog.functions[q].where(),
                'n_like is written by %s' % q)
